@@ -1485,10 +1485,12 @@ fn lines_case(cx: &mut CaseCtx, input: Input, max_len: u32, exact_len: Option<u3
 // Family 2: bounded-exhaustive expression token strings
 // ==========================================================================================
 
-const ETOKS: [&str; 8] = ["A", "B", "C", "!", "&&", "||", "(", ")"];
+/// (the single `&` and `|` make the malformed operators `&`, `|`, `&|`, `|&`, `&&&` ... reachable)
+const ETOKS: [&str; 10] = ["A", "B", "C", "!", "&&", "||", "(", ")", "&", "|"];
+const NETOK: u64 = ETOKS.len() as u64;
 
 fn expr_total(max_len: u32) -> u64 {
-    (0..=max_len).map(|l| 8u64.pow(l)).sum()
+    (0..=max_len).map(|l| NETOK.pow(l)).sum()
 }
 
 fn nth_expr(mut idx: u64, max_len: u32) -> Vec<usize> {
@@ -1497,13 +1499,13 @@ fn nth_expr(mut idx: u64, max_len: u32) -> Vec<usize> {
     while idx >= count {
         idx -= count;
         len += 1;
-        count *= 8;
+        count *= NETOK;
         assert!(len <= max_len);
     }
     let mut s = vec![0usize; len as usize];
     for pos in (0..len as usize).rev() {
-        s[pos] = (idx % 8) as usize;
-        idx /= 8;
+        s[pos] = (idx % NETOK) as usize;
+        idx /= NETOK;
     }
     s
 }
@@ -1518,8 +1520,8 @@ fn expr_case(cx: &mut CaseCtx, input: Input, max_len: u32, exact_len: Option<u32
             let mut s = vec![0usize; l as usize];
             let mut i = sidx;
             for pos in (0..l as usize).rev() {
-                s[pos] = (i % 8) as usize;
-                i /= 8;
+                s[pos] = (i % NETOK) as usize;
+                i /= NETOK;
             }
             s
         }
@@ -1907,7 +1909,7 @@ impl Check for C06 {
         "C06"
     }
     fn rule(&self) -> String {
-        "families: lines = every sequence of <= N lines (4 quick, 5 thorough; lengths N+1 and N+2 sampled with a stride) over 21 line forms (probe, 13 well-formed directives, 7 malformed ones) below `module M`, x 8 subsets of {A,B,C} as -D x {file ends with newline or not}; expr = every token string of length <= N (5 quick, 7 thorough; N+1 strided) over {A,B,C,!,&&,||,(,)} as the condition of an #if/#else pair x 8 valuations; files = proptest choice sequences -> one constructively balanced file (nesting <= 5, elif chains, define/undef anywhere, blanks before/after '#', trailing comments, CRLF/mixed endings, directives above the module line, probes with an unresolved field type or a use of a deprecated probe); multifile = the same for 2-3 files compiled together under one -D set; leak = every pair (a file of <= 2 lines over {probe, #define/#undef A/B}, a file of <= 4 lines over {probe, #if A, #if !A, #if B, #else, #endif, #define A, #undef A}) in both orders x 8 subsets. All judged by one line-oriented reference interpreter working from the text. Non-trivial = some file of the case is well-formed and has >= 1 conditional with a source line inside it and a source line outside it (malformed / unbalanced files exercise the E002 half and are counted by the 'malformed*' classes only); distinct by (symbols, file texts) for random families, by index for enumerations".into()
+        "families: lines = every sequence of <= N lines (4 quick, 5 thorough; lengths N+1 and N+2 sampled with a stride) over 21 line forms (probe, 13 well-formed directives, 7 malformed ones) below `module M`, x 8 subsets of {A,B,C} as -D x {file ends with newline or not}; expr = every token string of length <= N (5 quick, 6 thorough; N+1 strided) over {A,B,C,!,&&,||,(,),&,|} as the condition of an #if/#else pair x 8 valuations; files = proptest choice sequences -> one constructively balanced file (nesting <= 5, elif chains, define/undef anywhere, blanks before/after '#', trailing comments, CRLF/mixed endings, directives above the module line, probes with an unresolved field type or a use of a deprecated probe); multifile = the same for 2-3 files compiled together under one -D set; leak = every pair (a file of <= 2 lines over {probe, #define/#undef A/B}, a file of <= 4 lines over {probe, #if A, #if !A, #if B, #else, #endif, #define A, #undef A}) in both orders x 8 subsets. All judged by one line-oriented reference interpreter working from the text. Non-trivial = some file of the case is well-formed and has >= 1 conditional with a source line inside it and a source line outside it (malformed / unbalanced files exercise the E002 half and are counted by the 'malformed*' classes only); distinct by (symbols, file texts) for random families, by index for enumerations".into()
     }
     fn assumptions(&self) -> Vec<String> {
         vec![
@@ -1968,7 +1970,7 @@ impl Check for C06 {
     }
     fn families(&self, tier: Tier) -> Vec<Family<'_>> {
         let max_lines: u32 = tier.pick(4, 5);
-        let max_expr: u32 = tier.pick(5, 7);
+        let max_expr: u32 = tier.pick(5, 6);
         vec![
             Family::enumerate("lines", seq_total(max_lines) * 16, 1, move |cx, i| lines_case(cx, i, max_lines, None)),
             // the two next lengths, sampled with a stride (not exhaustive; the offset depends on the seed)
@@ -1987,7 +1989,7 @@ impl Check for C06 {
             Family::enumerate("expr", expr_total(max_expr) * 8, 1, move |cx, i| expr_case(cx, i, max_expr, None)),
             Family::enumerate(
                 "expr-longer",
-                8u64.pow(max_expr + 1) * 8,
+                NETOK.pow(max_expr + 1) * 8,
                 tier.pick(7, 61),
                 move |cx, i| expr_case(cx, i, max_expr + 1, Some(max_expr + 1)),
             ),
@@ -2001,7 +2003,7 @@ impl Check for C06 {
         json!({
             "line_forms": FORMS.iter().skip(1).collect::<Vec<_>>(),
             "exhaustive_line_sequences": seq_total(tier.pick(4, 5)),
-            "exhaustive_expression_strings": expr_total(tier.pick(5, 7)),
+            "exhaustive_expression_strings": expr_total(tier.pick(5, 6)),
         })
     }
 }
